@@ -62,6 +62,10 @@ CLAIMS = {
    technique="abstract interpretation of handler dispatch over all 65536 (category,value) codes per model vs. the constant event catalogue (clang AST/CFG facts)",
    text="Exhaustive over the finite code space: for each of the 8 models the set of (c,v) codes the event hook can accept is computed exactly from the CFGs and constant tables and compared with the declared catalogue in both directions; declared payload shapes are bound to ev->payload_size/is_jumbo and every declared event must still be accepted and every constant-offset payload read must lie inside the declared payload; catalogue self-consistency is evaluated with ev_spec.c's grammar. Not decided: ovnidump's formatted output for all argument values.",
    design_ref="§4 C18"),
+ "C19": dict(
+   technique="guarded-use analysis of trace bytes: relational interval abstract interpretation of stream_step over symbolic offset/size/event bytes (two consecutive calls, inductive), per-read byte-range obligations from record layouts; symbolic payload-size evaluation of every payload read in the handlers; evaluation of the printer's payload check; table-dimension and index-range checks",
+   text="Decides the memory-safety and progress clauses: for every stream size, offset and event bytes, each read stream_step performs through the cursor (flags, jumbo size, clock) is inside the mapped stream, an accepted event lies wholly inside the stream as the decoder will read it, and the cursor advances by at least one header with the size computed without narrowing; every constant-offset payload read in the 8 models' handlers and the mark handler is dominated by a payload-size test covering the bytes (escalating to callers); jumbo data is used as a string only after size and terminator tests; the event printer's payload check is evaluated on 9 shape cases and its result must be used; dispatch tables are 256x256; CPU and mux indices are range-checked. Assumes streams below 2 GiB for the decoder clause. Not decided: termination in general and robustness to arbitrary JSON beyond the getters' NULL/0 discipline.",
+   design_ref="§4 C19"),
 }
 
 NA_REASON = "check not built yet (work in progress; see DESIGN.md §4 for the planned rules)"
